@@ -377,17 +377,30 @@ def describe(c):
 
 
 def case_for_replay(c):
-    return {k: c[k] for k in ('nodes', 'elems', 'drop_NODE', 'nodal', 'elemental', 'stream')}
+    d = {k: c[k] for k in ('nodes', 'elems', 'drop_NODE', 'nodal', 'elemental', 'stream')}
+    if c.get('path_key'):
+        d['path_key'] = c['path_key']
+        if c.get('_prev') is not None:
+            # history: the case written to and read from the same path just before, same process
+            d['preceded_by'] = c['_prev']
+    return d
 
 
 def check_cases(ctx, cases, etypes, cfg, tag, tie_ok):
     """runs implementation + model on the cases; returns number of unlisted problems"""
+    last_shared = {}
+    for c in cases:
+        if c.get('path_key'):
+            prev = last_shared.get(c['path_key'])
+            c['_prev'] = {k: v for k, v in case_for_replay(prev).items() if k != 'preceded_by'} if prev else None
+            last_shared[c['path_key']] = c
     res = run_impl(ctx, cases)
     # -- property oracle on the implementation (id-keyed, bit exact)
     oracle_bad = {}
     for c in cases:
         r = res[c['id']]
         ctx.count('stream:' + c['stream'])
+        ctx.count('history:' + ('same-path-rewrite' if c.get('_prev') else 'fresh-path'))
         ctx.count('n_types:%d' % len(c['elems']))
         ctx.count('n_nodal2d:%d' % (len([v for v in c['nodal'] if v['kind'] == '2d']) + (not c['drop_NODE'])))
         ctx.count('n_elemental2d:%d' % len([v for v in c['elemental'] if v['kind'] == '2d']))
@@ -425,7 +438,8 @@ def check_cases(ctx, cases, etypes, cfg, tag, tie_ok):
              'impl': {k: r.get(k) for k in ('write_error', 'read_error', 'lines')}},
             'correspondence C04 (Corr.agree_write / Corr.agree_read)', found_input=cid in oracle_bad,
             signature={'kind': 'correspondence', 'write': cid in bad_w, 'read': cid in bad_r,
-                       'stream': c['stream']},
+                       'stream': c['stream'],
+                       'history': 'same-path-rewrite' if c.get('_prev') else 'fresh-path'},
             what='implementation and model disagree')
         n_unlisted += 0 if listed else 1
     for cid, d in sorted(oracle_bad.items()):
@@ -439,7 +453,8 @@ def check_cases(ctx, cases, etypes, cfg, tag, tie_ok):
                'nodal_aligned': al['nodal'], 'elemental_aligned': al['elemental'],
                'diff_only_in_misaligned_sections': all(s in al and not al[s] for s in secs),
                'explained_by_model': bool(tie_ok and cid not in bad_w and cid not in bad_r
-                                          and cid in model_false)}
+                                          and cid in model_false),
+               'history': 'same-path-rewrite' if c.get('_prev') else 'fresh-path'}
         listed = ctx.violation(
             'impl-violation', case_for_replay(c),
             'every value read back under the id it was written for (bit exact)',
@@ -498,7 +513,8 @@ def main(ctx):
                 '0-3 nodal and 0-3 elemental variables of width 1-9 (2-D, plus 1-D/3-D ones that the writer '
                 'must skip), values from specials (NaN, -0.0, denormals, 1e308, inf) and random bit patterns; '
                 'streams: aligned (variables stored in mesh id order), permuted (same id set, other order), '
-                'malformed (unsupported second-order type, variable not covering the mesh). '
+                'malformed (unsupported second-order type, variable not covering the mesh); every third case goes through '
+                'one shared path in one process (write A, read, overwrite with B, read: same-process history). '
                 'A case is non-trivial when femio wrote and read the file; distinct = distinct full input')
     ctx.trusted += [
         'section hypotheses of C04_* theorems: vparse (vprint v) = Some v and vprint v is a blank-free '
@@ -509,6 +525,8 @@ def main(ctx):
         'return the same list of lines for lines without @, double quote, and blank lines (modelled as identity)',
         'reader id conversion astype(float).astype(int) is exact for |id| <= 2^53 (wf bound id_ok)',
         'harness glue: Coq literals generated from the JSON case, float <-> token via repr',
+        'file layer tie: translate/c04_cfg.py:file_layer accepts only the known bodies of StringSeries.read_file / '
+        'read_files (file read on every call, no cache); C04_reader_reads_file',
     ]
     ctx.assumptions += [
         'variable names: printable ASCII without comma, @, double quote, not starting with a blank, not a '
@@ -575,6 +593,16 @@ def main(ctx):
         for _ in range(k):
             cases.append(gen_case(ctx.rng, cid, stream))
             cid += 1
+    # same-process history stream: every third well-formed case is written to and read from one
+    # shared path (write A, read, write B with overwrite=True, read, ...); each read is
+    # compared with what was written last
+    gen = cases[len(corpus):]
+    ctx.rng.shuffle(gen)
+    cases = cases[:len(corpus)] + gen
+    for i, c in enumerate(cases):
+        c['id'] = i
+        if i % 3 == 0 and c['stream'] != 'malformed':
+            c['path_key'] = 'h'
     if tie_ok:
         ok, log, _ = lib.coq_make(['C04/Corr.vo', 'C04/gen/UcdCfg.vo'])
         if not ok:
@@ -607,13 +635,28 @@ def replay(path):
     if 'nodes' not in c:
         print('nothing to replay on the implementation:', json.dumps(rp, indent=1)[:2000])
         return 1
-    ctx = lib.Ctx(PID, 'quick')
+    try:
+        ctx = lib.Ctx(PID, 'quick', clear_replays=False)
+    except TypeError:
+        ctx = lib.Ctx(PID, 'quick')
     load_aliases()
     c = dict(c)
     c['id'] = 0
-    cfg, _ = c04_cfg.translate(str(lib.REPO))
+    try:
+        cfg, _ = c04_cfg.translate(str(lib.REPO))
+    except c04_cfg.TranslateError as e:
+        print('translator failed closed:', e)
+        cfg = {'element_types': list(ARITY) + list(SECOND_ORDER_UNSUPPORTED)}
     etypes = cfg['element_types']
-    r = run_impl(ctx, [c])[0]
+    if c.get('preceded_by'):
+        prev = dict(c['preceded_by'])
+        prev['id'] = 0
+        prev['path_key'] = c['path_key']
+        c['id'] = 1
+        print('history: first the preceding case is written to and read from the same path')
+        r = run_impl(ctx, [prev, c])[1]
+    else:
+        r = run_impl(ctx, [c])[0]
     print('implementation:', json.dumps({k: r.get(k) for k in ('build_error', 'write_error', 'read_error',
                                                                'lines', 'read')}, indent=1)[:6000])
     exp = expected_by_id(c, etypes)
@@ -623,12 +666,13 @@ def replay(path):
         print('differences (section, variable, id):', bad)
     elif exp is not None:
         bad = ['raised']
-    lib.write_if_changed(lib.COQ / 'C04' / 'gen' / 'UcdCfg.v', c04_cfg.emit(cfg))
-    ok, log, _ = lib.coq_make(['C04/Corr.vo', 'C04/gen/UcdCfg.vo'])
-    if ok:
-        bw, br, mf = coq_correspondence(ctx, [c], {0: r}, 'replay')
-        print('model: write agrees with file:', 0 not in bw, '| read agrees:', 0 not in br,
-              '| model round trip = specification:', 0 not in mf)
+    if 'nodal_by_id' in cfg:
+        lib.write_if_changed(lib.COQ / 'C04' / 'gen' / 'UcdCfg.v', c04_cfg.emit(cfg))
+        ok, log, _ = lib.coq_make(['C04/Corr.vo', 'C04/gen/UcdCfg.vo'])
+        if ok:
+            bw, br, mf = coq_correspondence(ctx, [c], {c['id']: r}, 'replay')
+            print('model: write agrees with file:', c['id'] not in bw, '| read agrees:', c['id'] not in br,
+                  '| model round trip = specification:', c['id'] not in mf)
     print('property', 'VIOLATED' if bad else 'holds', 'on this input')
     return 1 if bad else 0
 
